@@ -1,0 +1,11 @@
+//go:build verif
+
+package rdb
+
+// VerifSetMaxBinEntryBuffer lowers (or restores) the value-chunking threshold so that split
+// values can be explored with KiB-sized datasets.  It returns the previous threshold.
+func VerifSetMaxBinEntryBuffer(n int) int {
+	old := maxBinEntryBuffer
+	maxBinEntryBuffer = n
+	return old
+}
